@@ -97,6 +97,10 @@ func genRelayCfg(g *gen, focus string) *Cfg {
 			h := HostCfg{Name: fmt.Sprintf("p%d.proxy.test", i+1), IP: l.Addr}
 			if g.chance(50) {
 				c.Hosts = append(c.Hosts, h)
+				if g.chance(20) {
+					// the top-level table knows the name too, with a foreign address: the service's own entry wins
+					c.GlobalHosts = append(c.GlobalHosts, HostCfg{Name: h.Name, IP: topo.hops[g.intn(len(topo.hops))]})
+				}
 			} else {
 				c.GlobalHosts = append(c.GlobalHosts, h)
 			}
@@ -120,6 +124,8 @@ func genRelayCfg(g *gen, focus string) *Cfg {
 	c.KeepNextHop = g.pick("", "", "true", "false", "yes", "no", "1")
 	if c.KeepNextHop == "" && g.chance(30) {
 		c.EnvKeep = g.pick("true", "false", "on")
+	} else if c.KeepNextHop != "" && g.chance(25) {
+		c.EnvKeep = g.pick("true", "false", "on", "yes") // the environment also says something: the file's value wins
 	}
 	// every next-hop address may be a TCP destination
 	for _, ip := range topo.hops {
@@ -526,6 +532,9 @@ func genRequest(g *gen, c *Cfg, o *relayGenOpts, learnedHosts []string) Op {
 			port = g.pick2(0, 5060, 5070, 49152+g.intn(100))
 		}
 		params := ";branch=z9hG4bK" + g.alnum(6, 14)
+		if g.chance(4) {
+			params = g.pick("", ";branch="+g.alnum(4, 8)) // an RFC 2543 client: no branch, or one without the magic cookie
+		}
 		if i == 0 {
 			switch g.intn(5) {
 			case 0:
@@ -1282,6 +1291,12 @@ func (st *relayState) judgeAnswer(rop *Op) {
 		wantIP = ip
 	} else if reqOp.Proto != "tcp" {
 		w.stat("dontcare:answer-towards-unresolvable-host")
+		return
+	}
+	if _, hasBranch := sender.Param("branch"); !hasBranch && reqOp.Proto == "tcp" {
+		// a client without a Via branch (RFC 2543) has no transaction the proxy could tie to its connection: the answer
+		// goes by the Via address over whatever connection can be had there - none, if nobody listens at that address
+		w.stat("dontcare:answer-to-branchless-tcp-request")
 		return
 	}
 	if len(ems) != 1 {
